@@ -10,7 +10,7 @@
    filter, every iteration order. *)
 From Coq Require Import ZArith List Bool Permutation Sorted.
 From Verif Require Import Annotate.Model Annotate.SortProofs Annotate.Plans Annotate.Determinism
-  C11.Spec C11.Proofs C11.Exact C11.TimeTravel C12.Proofs.
+  C11.Spec C11.Proofs C11.Exact C11.TimeTravel C11.Generic C12.Proofs.
 Import ListNotations.
 Open Scope Z_scope.
 
@@ -261,7 +261,61 @@ Theorem C11_to_child_list_shape : forall fid l,
 Proof. intros fid l. split; [exact (to_child_list_vidx_ok fid l)|exact (to_child_list_versions_mono fid l)]. Qed.
 Print Assumptions C11_to_child_list_shape.
 
-(* 13. time_travel_generic — see below (timestamp regime). *)
+(* 13. time_travel_generic — every pure regime ([regime_ok]: commit times of the child versions and
+       of the next parent all known, or all unknown: timestamp +- threshold with same-changeset
+       forward grouping), whatever version s FindVisible selected for (p, j).  For every t before
+       the bound of the next parent version ([before_bound]: its commit time when known, else its
+       timestamp less the threshold; no bound for the last version), applying the updates of the
+       annotated parent up to t leaves at reference j the later of s and the version current at t. *)
+Theorem C11_time_travel_generic :
+  forall cis o ps hist entries sortf ps' results p par j r cl s,
+  hist_ok hist -> valid_order o ps entries -> sort_spec less sortf ->
+  compute_with cis o ps hist entries sortf = Ok (ps', results) ->
+  nth_error ps p = Some par -> p_visible par = true ->
+  nth_error (p_refs par) j = Some r -> filtered_out (o_filter o) r = false ->
+  hist (r_id r) = HFound cl -> cl <> [] ->
+  vidx_ok cl -> stamps_monotone cis cl = true -> versions_mono cl ->
+  (forall ck, In ck cl -> stamp_consistent cis ck = true) ->
+  0 <= o_threshold o -> regime_ok cis cl (nth_error ps (S p)) ->
+  find_visible cis cl (p_changeset par) (pstamp cis par) (o_threshold o) = Some s ->
+  forall is_rel t par' us refs' pend,
+  before_bound cis o (nth_error ps (S p)) t ->
+  (forall ck, In ck cl -> (c_vidx s < c_vidx ck)%nat -> stamp cis ck <= t -> c_visible ck = true) ->
+  nth_error ps' p = Some par' -> nth_error results p = Some us ->
+  apply_updates_up_to is_rel t (p_refs par') us = ApplyOk refs' pend ->
+  exists e r', later (Some s) (current_at cis cl t) = Some e /\ nth_error refs' j = Some r' /\ ref_carries r' e.
+Proof. exact time_travel_generic. Qed.
+Print Assumptions C11_time_travel_generic.
+
+(* 13'. the update list of a reference in every regime: exactly the visible versions at positions
+        after the selected one and before nextVersion, which (13'') covers every version stamped
+        before the bound of the next parent version *)
+Theorem C11_updates_slice :
+  forall cis o ps hist entries sortf ps' results p par j r cl s,
+  valid_order o ps entries -> sort_spec less sortf ->
+  compute_with cis o ps hist entries sortf = Ok (ps', results) ->
+  nth_error ps p = Some par -> p_visible par = true ->
+  nth_error (p_refs par) j = Some r -> filtered_out (o_filter o) r = false ->
+  hist (r_id r) = HFound cl -> cl <> [] ->
+  find_visible cis cl (p_changeset par) (pstamp cis par) (o_threshold o) = Some s ->
+  exists us nv,
+    nth_error results p = Some us /\
+    next_version_index cis (Some s) cl (nth_error ps (S p)) o = Ok nv /\
+    forall u, (In u us /\ u_index u = j) <->
+      exists ck i, nth_error cl i = Some ck /\ c_visible ck = true /\ (c_vidx s < i)%nat /\ (i < nv)%nat /\
+                   u = child_update cis ck j.
+Proof. exact updates_slice. Qed.
+Print Assumptions C11_updates_slice.
+
+Theorem C11_next_version_covers : forall cis o cl np s nv,
+  0 <= o_threshold o -> vidx_ok cl -> stamps_monotone cis cl = true -> cl <> [] ->
+  regime_ok cis cl np -> nth_error cl (c_vidx s) = Some s ->
+  next_version_index cis (Some s) cl np o = Ok nv ->
+  forall i ck, nth_error cl i = Some ck -> (c_vidx s < i)%nat ->
+  before_bound cis o np (stamp cis ck) -> (i < nv)%nat.
+Proof. exact nv_covers. Qed.
+Print Assumptions C11_next_version_covers.
+
 
 (* ---- non-vacuity: the witness history of C12/Proofs.v (node 100: v1 before the way, v2 and v3
    in the same second after it; commit-time regime) ---- *)
@@ -311,6 +365,39 @@ Proof.
   split; [eexists; eexists; split; vm_compute; reflexivity|].
   split; [vm_compute; reflexivity|].
   eexists. eexists. split; [vm_compute; reflexivity|split; vm_compute; reflexivity].
+Qed.
+
+(* timestamp regime with forward grouping (witness of C11/Generic.v): the hypotheses of theorem 13
+   hold, FindVisible selects v2 although it is stamped AFTER the way (same changeset, within the
+   threshold), and travelling to the way's own time gives later(v2, current_at = v1) = v2, to a
+   time after v3 gives v3 *)
+Example C11_hyps_generic :
+  vidx_ok g_cl /\ versions_mono g_cl /\ g_cl <> [] /\ stamps_monotone g_cis g_cl = true /\
+  (forall ck, In ck g_cl -> stamp_consistent g_cis ck = true) /\
+  regime_ok g_cis g_cl (nth_error g_parents 1) /\ 0 <= o_threshold g_opts /\ hist_ok g_hist /\
+  option_map c_version (find_visible g_cis g_cl 7 (g_t 0) (o_threshold g_opts)) = Some 2 /\
+  option_map c_version (current_at g_cis g_cl (g_t 0)) = Some 1.
+Proof.
+  split; [apply to_child_list_vidx_ok|]. split; [apply to_child_list_versions_mono|].
+  split; [vm_compute; discriminate|]. split; [vm_compute; reflexivity|].
+  split; [apply forallb_forall; vm_compute; reflexivity|].
+  split; [right; split; [vm_compute; reflexivity|exact I]|].
+  split; [vm_compute; discriminate|]. split; [exact g_hist_ok|].
+  split; vm_compute; reflexivity.
+Qed.
+
+Example C11_instance_generic :
+  exists ps' us,
+    compute_with g_cis g_opts g_parents g_hist g_entries (isort less) = Ok (ps', [us]) /\
+    map r_version (flat_map p_refs ps') = [2] /\ map u_version us = [3] /\
+    (exists refs pend, apply_updates_up_to false (g_t 0) (flat_map p_refs ps') us = ApplyOk refs pend
+                       /\ map r_version refs = [2]) /\
+    (exists refs pend, apply_updates_up_to false (g_t 8000) (flat_map p_refs ps') us = ApplyOk refs pend
+                       /\ map r_version refs = [3]).
+Proof.
+  eexists. eexists. split; [vm_compute; reflexivity|]. split; [vm_compute; reflexivity|].
+  split; [vm_compute; reflexivity|].
+  split; eexists; eexists; split; vm_compute; reflexivity.
 Qed.
 
 (* error instances: the same way referencing a node without history / with only a deleted version *)
